@@ -295,7 +295,7 @@ func TestLipschitz3(t *testing.T) {
 	rec := ev.Get()
 	rapid.Check(t, func(t *rapid.T) {
 		S := rapid.SampledFrom([]float64{1, 10, 100}).Draw(t, "scale")
-		n := shape.Gen3(t, shape.Opts{S: S, Depth: rapid.IntRange(1, ev.Pick(3, 4)).Draw(t, "depth"), Grammar: shape.Lipschitz, SolidUnion2: true})
+		n := shape.Gen3(t, shape.Opts{S: S, Depth: rapid.IntRange(1, ev.Pick(3, 4)).Draw(t, "depth"), Grammar: shape.Lipschitz, SolidUnion2: true, UniformRoot: rapid.Bool().Draw(t, "uniform-root")})
 		b, err := shape.Build(n)
 		if err != nil {
 			rec.Count("discarded:constructor-rejected", 1)
@@ -387,7 +387,7 @@ func TestLipschitz2(t *testing.T) {
 	rec := ev.Get()
 	rapid.Check(t, func(t *rapid.T) {
 		S := rapid.SampledFrom([]float64{1, 10, 100}).Draw(t, "scale")
-		n := shape.Gen2(t, shape.Opts{S: S, Depth: rapid.IntRange(1, ev.Pick(3, 4)).Draw(t, "depth"), Grammar: shape.Lipschitz, SolidUnion2: true})
+		n := shape.Gen2(t, shape.Opts{S: S, Depth: rapid.IntRange(1, ev.Pick(3, 4)).Draw(t, "depth"), Grammar: shape.Lipschitz, SolidUnion2: true, UniformRoot: rapid.Bool().Draw(t, "uniform-root")})
 		b, err := shape.Build(n)
 		if err != nil {
 			rec.Count("discarded:constructor-rejected", 1)
